@@ -1,4 +1,5 @@
 import TwistedModel.Reactor.Clock
+import TwistedModel.Reactor.ClockDomain
 /-!
 Driver glue for C09.  One line = one whole history on a fresh `Clock()`; times are `Int` ticks.
   `C09 <tok> <tok> …`   tokens (prefix form, brackets for the script of a scheduled call):
@@ -10,6 +11,8 @@ Driver glue for C09.  One line = one whole history on a fresh `Clock()`; times a
   → the execution log, oldest first, events joined by one space (`-` when empty):
       `+<id>@<t>` `x<id>` `r<id>@<t>` `d<id>@<t>` `!AlreadyCalled:<id>` `!AlreadyCancelled:<id>`
       `!ValueError:<id>` `?<id>` `(<id>@<t>/<now>` `)<id>` `L<ids>/<ids>` `A` `a<now>` `!stuck`
+    followed by ` | nonneg=<0|1> admissible=<0|1>`: whether the history lies in the domain of the
+    hypothesis-free time-order theorems (`NonNeg`, `Admissible` of `TwistedModel/Reactor/ClockDomain.lean`)
 -/
 namespace Twisted.Drv.C09
 open Twisted.Reactor.Clock
@@ -90,6 +93,8 @@ def handle (args : List String) : String :=
   | none => "bad-op"
   | some h =>
     let tr := (run h).trace
-    if tr.isEmpty then "-" else " ".intercalate (tr.map showEv)
+    let flag (b : Bool) : String := if b then "1" else "0"
+    (if tr.isEmpty then "-" else " ".intercalate (tr.map showEv)) ++
+      s!" | nonneg={flag (NonNeg h)} admissible={flag (Admissible h)}"
 
 end Twisted.Drv.C09
